@@ -77,8 +77,12 @@ def run_case(case):
     decl_line = {s.name: lines[i] for i, s in enumerate(prog.stmts) if isinstance(s, Decl)}
     alias_of = {}
     for s in prog.stmts:
-        if isinstance(s, Decl) and isinstance(s.e, Ref):
-            alias_of[s.name] = s.e.name
+        if isinstance(s, Decl):
+            bare = s.e
+            while isinstance(bare, lang.Paren):
+                bare = bare.e
+            if isinstance(bare, Ref):
+                alias_of[s.name] = bare.name
 
     # a member selected from a bundle is that member's own wire: every name bound to the same selection is one more
     # name of one value (the statement's "aliases of one value under several names"), with or without optimisation
@@ -268,6 +272,10 @@ def run_case(case):
             fails.append({"sig": f"{kind}:input-labelled-by-alias" if via_alias else f"{kind}:input-not-labelled",
                           "detail": {"input": n, "found": [e.desc["raw"] for e in via_alias][:3]}})
             continue
+        if len(ents) > 1:
+            # a function-local or loop-local constant may carry the same name: the input is the one on its declaration's line
+            on_line = [e for e in ents if e.desc["line"] == decl_line.get(n)]
+            ents = on_line or ents
         e = ents[0]
         if f"value={value} " not in (e.desc["op"] + " ") and f"value={value}" != e.desc["op"]:
             fails.append({"sig": f"{kind}:input-value-label", "detail": {"input": n, "label": e.desc["raw"], "value": value}})
